@@ -37,7 +37,6 @@ import (
 	"runtime/pprof"
 	"sort"
 	"strconv"
-	"strings"
 	"sync/atomic"
 	"time"
 
@@ -1020,7 +1019,6 @@ func (r *run) post(st mbt.Step) error {
 		r.listed = append([]uint64{}, listed...)
 	}
 	listed := r.listed
-	bad := strList(st["bad"])
 	if newest != 0 && !hasU(listed, newest) {
 		return &violation{tag: "NewestSurvives", what: fmt.Sprintf("the snapshot file of checkpoint %d, the newest completed checkpoint, has been removed (storage holds %v)", newest, listed),
 			expected: newest, observed: listed, pred: reflect.DeepEqual(sortedU(listed), sortedU(u64s(st["files"])))}
@@ -1058,7 +1056,6 @@ func (r *run) post(st mbt.Step) error {
 			}
 		}
 	}
-	_ = bad
 	return nil
 }
 
@@ -1180,7 +1177,6 @@ func main() {
 	if n := len(in.Behaviours); n > 0 {
 		res.Samples = append(res.Samples, map[string]any{"kind": "Store behaviour replayed on snapshots.Store", "steps": in.Behaviours[n/2]})
 	}
-	_ = strings.TrimSpace
 	if err := mbt.WriteResult(os.Args[2], res); err != nil {
 		fmt.Fprintln(os.Stderr, err)
 		os.Exit(2)
